@@ -30,12 +30,18 @@ POOL_LOCAL = [
     ("der2.txt", {"query": "./n1.json/-/cat-q/der2.txt", "title": "Derived 2"}, "n1.json"),
     ("bad.txt", "one/boom/bad.txt", None),
     ("bad2.txt", "lit-a/needs/bad2.txt", None),
+    ("e1.txt", "lit-/ident/e1.txt", None),
+    ("dere.txt", "./e1.txt/-/cat-tail/dere.txt", "e1.txt"),
 ]
 POOL_SUB = [
     ("s1.txt", "lit-sub/cat-q/s1.txt", None),
     ("s2.txt", "../t1.txt/-/cat-w/s2.txt", "../t1.txt"),
     ("s3.json", {"query": "./s1.txt/-/cat-e/cat-~X~/one~E/s3.json", "title": "S3"}, "s1.txt"),
     ("sbad.txt", "../bad.txt/-/ident/sbad.txt", "../bad.txt"),
+]
+POOL_SUB2 = [
+    ("u1.txt", "lit-u/cat-v/u1.txt", None),
+    ("u2.json", {"query": "one/add-5/u2.json", "title": "U2"}, None),
 ]
 
 
@@ -88,17 +94,26 @@ def gen_scenario(rnd):
                         if cand[0] == dep:
                             subs.append(cand)
                             snames.add(dep)
+    sub2 = rnd.sample(POOL_SUB2, rnd.randint(1, 2)) if rnd.random() < 0.4 else []
     return {"dir": depth_dir, "local": [[a, b, c] for a, b, c in local], "sub": [[a, b, c] for a, b, c in subs],
+            "sub2": [[a, b, c] for a, b, c in sub2],
+            "order": rnd.choice(["RECIPES,sd,sd2", "sd,RECIPES,sd2", "sd,sd2,RECIPES", "sd2,sd,RECIPES"]),
             "subname": "sd", "backend": rnd.choice(["memory", "memory", "file"]),
-            "mount": rnd.choice(["direct", "mount1", "mount2"])}
+            "mount": rnd.choice(["direct", "mount1", "mount2"]), "cache": rnd.choice(["none", "none", "memory"])}
 
 
 def yaml_text(scn):
     import yaml
 
-    spec = {"RECIPES": [x[1] for x in scn["local"]]}
+    parts = {"RECIPES": [x[1] for x in scn["local"]]}
     if scn["sub"]:
-        spec[scn["subname"]] = [x[1] for x in scn["sub"]]
+        parts["sd"] = [x[1] for x in scn["sub"]]
+    if scn.get("sub2"):
+        parts["sd2"] = [x[1] for x in scn["sub2"]]
+    spec = {}
+    for name in scn.get("order", "RECIPES,sd,sd2").split(","):
+        if name in parts:
+            spec[name if name != "sd" else scn["subname"]] = parts[name]
     return yaml.safe_dump(spec, default_flow_style=False, sort_keys=False)
 
 
@@ -134,6 +149,9 @@ class Case:
         sbase = (base + "/" if base else "") + scn["subname"]
         for nm, q, dep in scn["sub"]:
             self.decl[sbase + "/" + nm] = {"def": q, "cwd": sbase, "name": nm}
+        s2base = (base + "/" if base else "") + "sd2"
+        for nm, q, dep in scn.get("sub2", []):
+            self.decl[s2base + "/" + nm] = {"def": q, "cwd": s2base, "name": nm}
         self.state = {k: "recipe" for k in self.decl}
         self.made = set()
 
@@ -220,7 +238,11 @@ def run_history(env, scn, hist, scratch, viol, stats):
     from liquer.cache import set_cache, NoCache
     from lqv import vocab
 
-    set_cache(NoCache())
+    from liquer.cache import MemoryCache
+
+    with_cache = scn.get("cache") == "memory"
+    set_cache(MemoryCache() if with_cache else NoCache())
+    stats["cache.%s" % scn.get("cache", "none")] = stats.get("cache.%s" % scn.get("cache", "none"), 0) + 1
     case = Case(scn, scratch)
     try:
         store = case.store
@@ -265,14 +287,20 @@ def run_history(env, scn, hist, scratch, viol, stats):
                     if b != exp_b:
                         bad("bytes_differ_from_serialized_query_result", "read(%r): want %r got %r (query %r)" % (key, exp_b[:80], b[:80], case.abs_query(key)))
                     first = key not in case.made
+                    if case.state.get(key) == "unknown":
+                        real_log = exp_log   # either served from the store or evaluated now: both are fine
                     if real_log != exp_log:
                         if len(real_log) > len(exp_log) or any(real_log.count(x) > exp_log.count(x) for x in set(real_log)):
                             bad("re_evaluated" if not first else "evaluated_more_than_once_on_first_read",
                                 "read(%r): executed %r, expected %r" % (key, real_log, exp_log))
-                        elif first:
+                        elif first and not with_cache:
                             bad("first_read_did_not_evaluate_the_recipe", "read(%r): executed %r, expected %r" % (key, real_log, exp_log))
                     if first:
                         for dep in _closure(case, key):
+                            if with_cache and dep != key and dep not in case.made:
+                                # served from the query cache: the dependency may or may not have been materialised
+                                case.state[dep] = "unknown"
+                                continue
                             case.made.add(dep)
                             case.state[dep] = "ready"
                     if first:
@@ -286,6 +314,8 @@ def run_history(env, scn, hist, scratch, viol, stats):
                     bad("metadata_unavailable", "get_metadata(%r) raised %r (state %s)" % (key, e, case.state[key]))
                     continue
                 st = case.state[key]
+                if st == "unknown":
+                    continue
                 if md.get("status") != st:
                     bad("status", "get_metadata(%r): status want %r got %r" % (key, st, md.get("status")))
                 d = case.decl[key]["def"]
@@ -449,7 +479,7 @@ def replay(spec):
 def finalize(m, tier, seed):
     inc = []
     for k in ("materialised", "removed", "cleans", "failing_reads", "cfg.memory.direct", "cfg.memory.mount1", "cfg.memory.mount2",
-              "cfg.file.mount1", "depth.0", "depth.1", "depth.2", "op.read", "op.metadata", "op.list"):
+              "cfg.file.mount1", "depth.0", "depth.1", "depth.2", "op.read", "op.metadata", "op.list", "cache.memory", "cache.none"):
         if not m["counters"].get(k):
             inc.append("coverage class %s empty" % k)
     return {"inconclusive": inc}
